@@ -101,6 +101,17 @@ def _diff(a, b, names: dict, rnames: dict, out: list, in_msg=False) -> bool:
         if isinstance(a, (ast.operator, ast.cmpop, ast.unaryop, ast.boolop)) and isinstance(b, type(a).__mro__[1]):
             out.append(("operator", type(a).__name__, type(b).__name__))
             return True
+        # `x` against `x - 1` / `x + 1`: the same operand with a constant offset is a leaf (an off-by-one), not another shape
+        for with_off, plain, flip in ((a, b, False), (b, a, True)):
+            if isinstance(with_off, ast.BinOp) and isinstance(with_off.op, (ast.Add, ast.Sub)) and isinstance(with_off.right, ast.Constant) \
+                    and isinstance(with_off.right.value, int) and not isinstance(with_off.right.value, bool) and with_off.right.value != 0 \
+                    and isinstance(plain, (ast.Name, ast.Attribute, ast.Subscript)):
+                n1, r1, o1 = dict(names), dict(rnames), []
+                ok = _diff(plain, with_off.left, n1, r1, o1, in_msg) if flip else _diff(with_off.left, plain, n1, r1, o1, in_msg)
+                if ok and not o1:
+                    names.update(n1); rnames.update(r1)
+                    out.append(("offset", ast.unparse(a), ast.unparse(b)))
+                    return True
         return False
     if isinstance(a, ast.Name):
         # the renaming is a *function* from the repository's names to the rule's role names: one name of
